@@ -1,6 +1,7 @@
 package c12
 
 import (
+	"time"
 	"fmt"
 	"io"
 	"log"
@@ -52,6 +53,9 @@ var daemonDown bool
 
 // coldHeaders: rigs whose header cache (extract_headers_ttl) expires at once.
 var coldHeaders bool
+
+// headerTimeout: rigs with this read_header_timeout instead of the default.
+var headerTimeout time.Duration
 
 // runParallel feeds n indices to w rigs.
 func runParallel(t *testing.T, n int, fn func(g *rig, i int)) {
